@@ -74,6 +74,7 @@ func (r *vRecorder) Flush() {
 type vHijackRecorder struct{ *vRecorder }
 
 func (r vHijackRecorder) Hijack() (net.Conn, *bufio.ReadWriter, error) {
+	vYield() // taking over the connection is not instantaneous: other goroutines may run meanwhile
 	r.vRecorder.hijacked = true
 	return nil, nil, nil
 }
